@@ -101,8 +101,13 @@ impl<T: Write + Seek> ShapeWriter<T> {
             (ShapeType::NullShape, t) => {
                 self.header.shape_type = t;
                 self.header.bbox = BBoxZ {
-                    max: PointZ::new(f64::MIN, f64::MIN, f64::MIN, f64::MIN),
-                    min: PointZ::new(f64::MAX, f64::MAX, f64::MAX, f64::MAX),
+                    max: PointZ::new(
+                        f64::NEG_INFINITY,
+                        f64::NEG_INFINITY,
+                        f64::NEG_INFINITY,
+                        f64::NEG_INFINITY,
+                    ),
+                    min: PointZ::new(f64::INFINITY, f64::INFINITY, f64::INFINITY, f64::INFINITY),
                 };
                 // finalize() may already have been called (and have written an
                 // empty header): the header always lives at the start
@@ -196,12 +201,12 @@ impl<T: Write + Seek> ShapeWriter<T> {
             return Ok(());
         }
 
-        if self.header.bbox.max.m == f64::MIN && self.header.bbox.min.m == f64::MAX {
+        if self.header.bbox.max.m == f64::NEG_INFINITY && self.header.bbox.min.m == f64::INFINITY {
             self.header.bbox.max.m = 0.0;
             self.header.bbox.min.m = 0.0;
         }
 
-        if self.header.bbox.max.z == f64::MIN && self.header.bbox.min.z == f64::MAX {
+        if self.header.bbox.max.z == f64::NEG_INFINITY && self.header.bbox.min.z == f64::INFINITY {
             self.header.bbox.max.z = 0.0;
             self.header.bbox.min.z = 0.0;
         }
